@@ -140,7 +140,7 @@ def run(tier):
                     perm_cases.append(pc)
                 perm = p0.map("vlib.observe:run_case", perm_cases, timeout=180)
                 # repetitions through one provider object
-                md_idx = [i for i, c in enumerate(cases) if c.get("metadata")]
+                md_idx = [i for i, c in enumerate(cases) if c.get("metadata") and (tier == "thorough" or c.get("src") in ("chain", "extra") or i % 3 == 0)]
                 same = dict(zip(md_idx, p0.map("vlib.observe:run_same_provider", [cases[i] for i in md_idx], timeout=400)))
         finally:
             for _, p in pools:
